@@ -3,7 +3,7 @@ import ast
 
 import re
 from ..core import AnalysisError, anchor
-from .. import cfront, pyfront
+from .. import cfront, pyfront, normal
 from ..cfront import walk, strip, callee_name, call_args, render, line_of, qtype, is_assign
 from . import compose as C
 
@@ -539,7 +539,76 @@ def rule_direction(ctx):
     ctx.covered('R08.8', 'direction typing of time/step comparisons in the catch-up loops, the exit test and the snapshot cadence; overshoot clamp in every catch-up loop', n, floor=20, samples=samples)
 
 
+def rule_save_restore(ctx, rule='R08.9'):
+    """R08.9: a function that puts a member of the simulation aside in a local (const double old_t = r->t), changes the
+    member for the duration of some inner work (sub-stepping an encounter with its own t and dt) and assigns the local back at
+    the end, has to reach that assignment on every way out: a return between the save and the restore hands the inner
+    value of t / dt (and the inner mode flag) back to integrate(), which then reports a time that is not a step boundary
+    and continues with the sub-step size."""
+    n = 0
+    samples = []
+    for cfile, tu in sorted(cfront.load_tus().items()):
+        for fname, fn in sorted(tu.funcs.items()):
+            if cfront.body(fn) is None or cfront.basename(fn.get('_locfile') or fn.get('_file')) != cfile:
+                continue
+            fn = tu.func(fname)
+            saved = {}
+            for d in walk(cfront.body(fn)):
+                if d.get('kind') == 'VarDecl' and 'init' in d:
+                    init = [c for c in d.get('inner', []) if c.get('kind') not in ('FullComment',)]
+                    t_ = render(init[-1]).replace(' ', '') if init else ''
+                    if re.match(r'^r\.(t|dt|dt_last_done)$', t_):
+                        saved[d['name']] = (t_, line_of(d))
+            if not saved:
+                continue
+            for loc, (mem, l0) in sorted(saved.items()):
+                rest = [line_of(e) for e in walk(cfront.body(fn)) if is_assign(e) and e['opcode'] == '=' and render(e['inner'][0]).replace(' ', '') == mem
+                        and render(e['inner'][1]).replace(' ', '').strip('()') == loc]
+                changed = [line_of(e) for e in walk(cfront.body(fn)) if is_assign(e) and render(e['inner'][0]).replace(' ', '') == mem
+                           and render(e['inner'][1]).replace(' ', '').strip('()') != loc and line_of(e) > l0]
+                if not rest or not changed:
+                    continue
+                n += 1
+                last = max(rest)
+                for x in walk(cfront.body(fn)):
+                    if x.get('kind') == 'ReturnStmt' and min(changed) < line_of(x) < last:
+                        ctx.report(rule, '%s:%s:return' % (fname, mem), 'src/%s:%s %s' % (cfile, line_of(x), fname),
+                                   '%s is put aside in %s (line %s), changed for the inner work and assigned back at line %s - but this return leaves the function in between: the caller continues with the inner value of %s' % (mem, loc, l0, last, mem))
+                samples.append('src/%s %s: %s saved in %s, restored at line %s' % (cfile, fname, mem, loc, last))
+    ctx.covered(rule, 'members of the simulation put aside in a local and assigned back at the end of the function: no return in between', n, floor=2, samples=samples[:5])
+
+
+def rule_final_snapshot_order(ctx, rule='R08.10'):
+    """R08.10: integrate() may shorten the last step to land on tmax and puts the full step size back afterwards
+    (r->dt = last_full_dt). Whatever persists the simulation after the loop (the final heartbeat of the archive, a save)
+    has to come after that assignment - a snapshot written before it stores the shortened step, and a restart from it
+    continues with the wrong dt."""
+    tu = cfront.load_tu('rebound.c')
+    fns = normal.with_new_helpers(tu, 'reb_simulation_integrate_raw')
+    n = 0
+    for fn in fns:
+        top = cfront.body(fn).get('inner', [])
+        restores = [line_of(e) for st in top for e in walk(st) if is_assign(e) and e['opcode'] == '=' and render(e['inner'][0]).replace(' ', '') == 'r.dt'
+                    and 'last_full_dt' in render(e['inner'][1]) and st.get('kind') != 'WhileStmt' and st.get('kind') != 'ForStmt' and st.get('kind') != 'DoStmt']
+        if not restores:
+            continue
+        n += 1
+        loops = [st for st in top if st.get('kind') in ('WhileStmt', 'ForStmt', 'DoStmt') and any(x.get('kind') == 'CallExpr' and callee_name(x) == 'reb_simulation_step' for x in walk(st))]
+        anchor(loops, 'main loop of reb_simulation_integrate_raw')
+        after = (loops[-1].get('_endline') or line_of(loops[-1]))
+        for st in top:
+            for e in walk(st):
+                if e.get('kind') == 'CallExpr' and callee_name(e) in ('reb_simulationarchive_heartbeat', 'reb_simulation_save_to_file', 'reb_simulation_save_to_stream') \
+                        and line_of(e) > after and line_of(e) < max(restores):
+                    ctx.report(rule, 'integrate:final-snapshot', 'src/rebound.c:%s %s' % (line_of(e), fn['name']),
+                               '%s runs after the loop but before the full step size is put back (r->dt = last_full_dt at line %s): with exact_finish_time the snapshot stores the shortened last step and a restart from it continues with the wrong timestep' % (callee_name(e), max(restores)))
+    anchor(n >= 1, 'r->dt = last_full_dt after the loop of reb_simulation_integrate_raw')
+    ctx.covered(rule, 'the final snapshot of integrate() is written after the full step size has been put back', n, floor=1)
+
+
 def run(ctx):
+    rule_save_restore(ctx)
+    rule_final_snapshot_order(ctx)
     from . import c01
     c01.rule_dispatch(ctx)            # R01.1: a switch over r->status that ignores enumerators (paused / single-stepped by a client) without reporting
     rule_direction(ctx)
